@@ -102,8 +102,8 @@ def _coverage(ctx, part, acc):
         for k in ("flip", "trunc", "adflip", "sivbit", "garbageR", "prefixswap", "exact", "bykey"):
             if c[("dec", k)] == 0:
                 raise vlib.Infra("C08 SIV: mutation class %s never executed" % k)
-        if c[("enc", "repeat")] == 0:
-            raise vlib.Infra("C08 SIV: no encryption repeated after buffer reuse / scribbling")
+        if c[("enc", "repeat")] == 0 or c[("enc", "walk")] == 0:
+            raise vlib.Infra("C08 SIV: no encryption repeated after buffer reuse / no length walk on one primitive")
         if c[("xorend", "")] == 0:
             raise vlib.Infra("C08 SIV: xorend routine never executed")
     else:
@@ -115,7 +115,7 @@ def _coverage(ctx, part, acc):
         for k in ("corrupt", "trunc", "forge-pad-nonzero", "forge-mli-wide", "garbage", "exact"):
             if c[("unwrap", k)] == 0:
                 raise vlib.Infra("C08 KWP: mutation class %s never executed" % k)
-        if c[("wrap", "repeat")] == 0:
+        if c[("wrap", "repeat")] == 0 or c[("wrap", "walk")] == 0:
             raise vlib.Infra("C08 KWP: no wrap repeated after buffer reuse / scribbling")
         ctx.cov["kwp_unwrap_accepts_rfc_valid_wrappings_of_keys_shorter_than_16"] = acc["short"]
     ctx.cov.setdefault("event_classes", {}).update({"%s:%s" % k: v for k, v in sorted(c.items())})
@@ -133,7 +133,9 @@ def run(ctx):
         "TLC against SIV.tla / KWP.tla (RFC 5297 / RFC 5649 transcribed over the JDK AES block)")
     ctx.cov["buffers"] = ("every input handed to Tink lives in a driver-owned reused buffer that is scribbled over after every "
                           "constructor and call; inputs are logged from pristine copies, outputs after the scribble; the earliest "
-                          "calls of every primitive are repeated at the end of its life (kind=repeat)")
+                          "calls of every primitive are repeated at the end of its life (kind=repeat), and every primitive is walked "
+                          "through the plaintext / AD / payload length classes growing, shrinking to empty and growing again "
+                          "(kind=walk), each call its own judged event")
     ctx.assumptions += ["AES block cipher is the JDK's (independent of Go's standard library)",
                         "KWP payloads longer than 520 octets are judged by the JDK's AES/KWP unless sampled as 'deep' "
                         "(then the TLA+ W must also equal the JDK)",
